@@ -15,8 +15,8 @@
 (* memtable keeps the last entry written for an internal key).             *)
 (*                                                                         *)
 (* DupFirst = TRUE is the intended order (duplicates, which are all older  *)
-(* calls, before the pending entries); DupFirst = FALSE is the order of    *)
-(* the pinned tree (txn.go commitAndSend: pendingWrites then               *)
+(* calls, before the pending entries); DupFirst = FALSE is the order the  *)
+(* tree had before fix a5388b6 (commitAndSend: pendingWrites then          *)
 (* duplicateWrites), for which TLC finds the LaterWins counterexample.     *)
 (*                                                                         *)
 (* Code anchors: batch.go (NewWriteBatch, handleEntry, Delete, commit,     *)
